@@ -7,6 +7,8 @@ import sys
 sys.path.insert(0, os.path.dirname(os.path.dirname(os.path.abspath(__file__))))
 from vlib import props  # noqa: E402
 
+props.load()
+
 VERIF = os.path.dirname(os.path.dirname(os.path.abspath(__file__)))
 
 
